@@ -43,7 +43,7 @@ func c03Rows(entry int) int {
 
 // c03Tree builds a tree with symbolic shape and content. isSrc only changes
 // nothing but documents intent.
-func c03Tree(st *memStore, entry int, withChoice bool) {
+func c03Tree(st *memStore, entry int, withChoice bool, maxRows int) {
 	r := st.root
 	if entry == 0 && vpBool() {
 		r.leaves["top"] = val.Int32(vpInt32())
@@ -75,7 +75,7 @@ func c03Tree(st *memStore, entry int, withChoice bool) {
 	}
 	if entry == 2 || (entry == 0 && vpBool()) {
 		l := r.ensureList(st, "l")
-		n := vpChoose(c03Rows(entry) + 1)
+		n := vpChoose(maxRows + 1)
 		var keys []int32
 		for i := 0; i < n; i++ {
 			k := vpInt32()
@@ -101,9 +101,13 @@ func c03Tree(st *memStore, entry int, withChoice bool) {
 // ---- reference model -------------------------------------------------------
 
 func c03Run(m *meta.Module, strategy int, entry int) {
+	c03RunRows(m, strategy, entry, c03Rows(entry), c03Rows(entry))
+}
+
+func c03RunRows(m *meta.Module, strategy int, entry int, srcRows, dstRows int) {
 	src, dst := newMemStore(), newMemStore()
-	c03Tree(src, entry, true)
-	c03Tree(dst, entry, strategy == c03Upsert) // insert/update never clear another case: keep the target's choice empty there
+	c03Tree(src, entry, true, srcRows)
+	c03Tree(dst, entry, strategy == c03Upsert, dstRows) // insert/update never clear another case: keep the target's choice empty there
 	src.quiet, dst.quiet = true, true
 	ref := newMemStore()
 	ref.root = c03Clone(ref, dst.root)
@@ -158,7 +162,15 @@ func c03Run(m *meta.Module, strategy int, entry int) {
 }
 
 //vp:setup S_c03
-func H_C03_upsert_root(s any) { c03Run(s.(*meta.Module), c03Upsert, 0) }
+func H_C03_upsert_root(s any) { c03RunRows(s.(*meta.Module), c03Upsert, 0, 1, 1) }
+
+// upsert at the root with two rows on one side (two on both sides exceeds the path budget: 400000 paths explored, more pending)
+//
+//vp:setup S_c03
+func H_C03_T_upsert_root_src2(s any) { c03RunRows(s.(*meta.Module), c03Upsert, 0, 2, 1) }
+
+//vp:setup S_c03
+func H_C03_T_upsert_root_dst2(s any) { c03RunRows(s.(*meta.Module), c03Upsert, 0, 1, 2) }
 
 //vp:setup S_c03
 func H_C03_insert_root(s any) { c03Run(s.(*meta.Module), c03Insert, 0) }
